@@ -94,7 +94,7 @@ def dup_ids(reqs):
     return set(k for k, n in cnt.items() if n > 1)
 
 
-def pick_routed(cands, v, sends):
+def pick_routed(cands, v, sends, dups=()):
     """index of the set/call request (conn, request) that the routed message v belongs to, or None"""
     meth, rid = cget(v, b"method"), cget(v, b"id")
     scored = []
@@ -110,7 +110,8 @@ def pick_routed(cands, v, sends):
         if oid is not None and not is_id(oid):
             continue      # an id of another JSON type is refused, never routed
         prefix = (oid + b"_") if isinstance(oid, bytes) else (b"(null)_" if is_id(oid) else b"")
-        refused = is_id(oid) and any(d2 == c and is_response(v2) and has_member(v2, b"error") and cget(v2, b"id") == oid
+        # (an error response carrying the request's id says "refused" only when no other request of the step uses that id)
+        refused = is_id(oid) and (c, repr(oid)) not in dups and any(d2 == c and is_response(v2) and has_member(v2, b"error") and cget(v2, b"id") == oid
                                      for d2, ok2, v2 in sends if not (isinstance(v2, tuple) and v2 and v2[0] == "unparsable"))
         scored.append((0 if (rid.startswith(prefix) and not refused) else (1 if not refused else 2), i))
     return sorted(scored)[0][1] if scored else None
@@ -620,6 +621,7 @@ def mon_c03(sc, res):
     for si, st in enumerate(sc.steps):
         sends = step_sends(res, si)
         reqs = [(c, v) for c, v in step_requests(st, itr.replies, si) if c not in dead and v is not None]
+        _step_dups = dup_ids(reqs)
         cands, replies_in = [], []
         for c, top in reqs:
             rs, _ = flatten_requests(top)
@@ -641,7 +643,7 @@ def mon_c03(sc, res):
                 if rid in ever:
                     fails.append("step %d: routed id %s was used before" % (si, show(rid)))
                 ever.add(rid)
-                match = pick_routed(cands, v, sends)
+                match = pick_routed(cands, v, sends, _step_dups)
                 if match is None:
                     fails.append("step %d: routed message %s to c%d corresponds to no set/call of this step with equal path and payload" % (si, show(v)[:160], d))
                     continue
@@ -1155,6 +1157,7 @@ def mon_c14(sc, res):
     for si, st in enumerate(sc.steps):
         sends = step_sends(res, si)
         reqs = [(c, v) for c, v in step_requests(st, itr.replies, si) if c not in dead and v is not None]
+        _step_dups = dup_ids(reqs)
         arms = [t for t in itr.timers[si] if t[0] == "arm"]
         routed = [(d, v) for d, ok, v in sends if is_obj(v) and cget(v, b"method") is not None and isinstance(cget(v, b"id"), bytes)]
         cands = []
@@ -1198,7 +1201,7 @@ def mon_c14(sc, res):
             path = cget(v, b"method")
             want = None
             src = None
-            j = pick_routed(cands, v, sends)
+            j = pick_routed(cands, v, sends, _step_dups)
             if j is not None:
                 c, r = cands.pop(j)
                 params = cget(r, b"params")
